@@ -85,11 +85,14 @@ def cases(tier, seed):
                 for size in range(0, mx + 1):
                     if tier == 'quick' and size == 3 and (grid, bound) != ('m567', True):
                         continue
-                    yield dict(kind='block', region=rname, grid=grid, bound=bound, size=size, zone=(tier == 'thorough' or size <= 2),
-                               perms=('all' if tier == 'thorough' and size <= 3 else 'three'))
+                    nparts = {0: 1, 1: 1, 2: 2, 3: 12, 4: 64}[size]
+                    for part in range(nparts):        # large blocks are split into strided parts (load balance only)
+                        yield dict(kind='block', region=rname, grid=grid, bound=bound, size=size, zone=(tier == 'thorough' or size <= 2),
+                                   perms=('all' if tier == 'thorough' and size <= 3 else 'three'), part=[part, nparts])
     if tier == 'quick':
         rname = (list(cart_regions()) + list(QUAD))[seed % 7]
-        yield dict(kind='block', region=rname, grid='m567', bound=True, size=4, perms='sorted')
+        for part in range(16):
+            yield dict(kind='block', region=rname, grid='m567', bound=True, size=4, perms='sorted', part=[part, 16])
 
 
 # ----------------------------------------------------------------------------- reference
@@ -358,6 +361,10 @@ def run_case(case):
         if not case.get('zone', True):
             letters = [l for l in letters if l[1] != 4]      # quick tier: the tolerance-zone letter only in catalogs of <= 2 events
         cats = [list(ms) for ms in itertools.combinations_with_replacement(letters, case['size'])]
+        if case.get('part'):
+            cats = cats[case['part'][0]::case['part'][1]]
+        if not cats:
+            return result(evals=0, states=0, transitions=0, nontrivial=0, failures=[], digest='empty', sample=dict(case))
     for ms in cats:
         for oi, seq in enumerate(orders(ms, perms)):
             evals += judge_catalog(rname, grid, bound, seq, pos, mags, edges, failures, hsh, hist=(oi == 0 and len(seq) <= 2) or case['kind'] == 'single')
